@@ -7,6 +7,7 @@ import (
 	"fmt"
 	"math"
 	"math/bits"
+	"os"
 	"sort"
 	"strings"
 )
@@ -325,6 +326,27 @@ func (ts *TermStore) app(op Op, w int, p1, p2 int, args ...*Term) *Term {
 			aw[i] = a.w
 		}
 		return ts.constOf(w, evalOp(op, w, p1, p2, av, aw))
+	}
+	// arithmetic of a constant with an ite tree whose leaves are all constants (a position or
+	// index selected by a chain of comparisons) is pushed into the leaves, where it folds: the
+	// result is again such a tree and no division or multiplication reaches the solver.
+	switch op {
+	case OpAdd, OpSub, OpMul, OpUDiv, OpURem, OpSDiv, OpSRem, OpShl, OpLShr, OpAShr, OpAnd, OpOr, OpXor,
+		OpULt, OpULe, OpSLt, OpSLe:
+		if len(args) == 2 && w != SortFP && args[0].w != SortFP && !noIteDist {
+			for i := 0; i < 2; i++ {
+				if args[i].op == OpIte && args[1-i].IsConst() && iteConstLeaves(args[i], 64) {
+					k := args[1-i]
+					idx := i
+					return ts.mapIteLeaves(args[i], map[*Term]*Term{}, func(leaf *Term) *Term {
+						if idx == 0 {
+							return ts.app(op, w, p1, p2, leaf, k)
+						}
+						return ts.app(op, w, p1, p2, k, leaf)
+					})
+				}
+			}
+		}
 	}
 	switch op {
 	case OpAdd:
@@ -959,4 +981,41 @@ func (ts *TermStore) HasHardArith(terms []*Term) (div bool, fp bool) {
 		rec(t)
 	}
 	return
+}
+
+var noIteDist = os.Getenv("VERIF_NO_ITEDIST") != ""
+
+// iteConstLeaves reports whether t is an ite tree all of whose leaves are constants, with at
+// most limit nodes visited.
+func iteConstLeaves(t *Term, limit int) bool {
+	n := 0
+	var walk func(t *Term) bool
+	walk = func(t *Term) bool {
+		n++
+		if n > limit {
+			return false
+		}
+		if t.op == OpIte {
+			return walk(t.args[1]) && walk(t.args[2])
+		}
+		return t.IsConst()
+	}
+	return walk(t)
+}
+
+// mapIteLeaves rebuilds an ite tree with f applied to every leaf.
+func (ts *TermStore) mapIteLeaves(t *Term, memo map[*Term]*Term, f func(*Term) *Term) *Term {
+	if r, ok := memo[t]; ok {
+		return r
+	}
+	var r *Term
+	if t.op == OpIte {
+		a := ts.mapIteLeaves(t.args[1], memo, f)
+		b := ts.mapIteLeaves(t.args[2], memo, f)
+		r = ts.Ite(t.args[0], a, b)
+	} else {
+		r = f(t)
+	}
+	memo[t] = r
+	return r
 }
